@@ -22,16 +22,21 @@ def make_cases(rng, tier, n):
     cases, stats = [], {}
     for c_i in range(n):
         ns = rng.choice([2, 3, 3, 4] + ([5, 6] if tier == "thorough" else []))
-        c = gen.pipeline_project(rng, "hist-%d" % c_i, ns, tier=tier, lossy=0.3)
+        c = gen.pipeline_project(rng, "hist-%d" % c_i, ns, tier=tier, lossy=0.3, dir_sources=0.25)
         edges = c["edges"]
         names = [sp for sp, st in c["stages"]]
         srcs = {}
         consumers = {}
         for i, (sp, st) in enumerate(c["stages"]):
             for p, fl in st.get("in", []):
-                if p.startswith(b"src/") or b"_cfg/" in p:
+                if (p.startswith(b"src/") or b"_cfg/" in p) and "d" not in fl:
                     srcs[i] = p
                     consumers.setdefault(p, set()).add(i)
+        dirsrc = {}
+        for i, (sp, st) in enumerate(c["stages"]):
+            for p, fl in st.get("in", []):
+                if p.startswith(b"src/dir") and "d" in fl:
+                    dirsrc[i] = p
         ops = [("run", False, [])]
         dirty = set()
         vers = {}
@@ -42,6 +47,15 @@ def make_cases(rng, tier, n):
         for _ in range(nev):
             ev = rng.choice(["edit_src", "edit_src", "edit_def", "damage", "delete", "run_all", "run_all", "run_t", "run_s", "commit_after_run",
                              "run_commit_run", "partial", "edit_ws", "same_len"])
+            if ev in ("edit_ws", "same_len") and dirsrc and rng.random() < 0.5:
+                # a file appears in a plain directory input while the directory keeps an OLD modification time (rsync -a, tar x, cp -a)
+                i = rng.choice(sorted(dirsrc))
+                vers[("d", i)] = vers.get(("d", i), 0) + 1
+                ops += [("run", False, []), ("commit", rng.choice("lc"), []),
+                        ("writeolddir", dirsrc[i] + b"/added%d.txt" % vers[("d", i)], "g:%d:5" % rng.randrange(1000)), ("run", False, [])]
+                dirty = set()
+                hist.append("dir-input-grows-old-mtime")
+                continue
             if ev == "same_len":
                 # a source of a `vlen` stage gets new bytes of the SAME length: the stage re-runs and reproduces identical
                 # outputs, the commit must still record the new input; then run;commit;run is idle
@@ -118,7 +132,8 @@ def make_cases(rng, tier, n):
                     ops.append(("rm", outp))
                 elif "d" in fl:
                     # at depth 1, 2 or 3 below the directory output
-                    ops.append(("write", outp + rng.choice([b"/f", b"/sub/g", b"/sub/deep/h"]), "g:5:5"))
+                    # (a producer that declares the directory without recursion plus sub/deep does not own sub/g)
+                    ops.append(("write", outp + rng.choice([b"/f", b"/sub/deep/h"] if "r" in fl else [b"/f", b"/sub/g", b"/sub/deep/h"]), "g:5:5"))
                 else:
                     ops.append(("write", outp, "g:5:5"))
                 dirty.add(i)
@@ -174,8 +189,16 @@ def oracle(run):
         doc = snap["stages"].get(sp)
         parsed = doc[1] if doc else None
         return ((parsed or {}).get("command") or "").strip()
+    last_sum = {}
     for k, st in enumerate(steps):
         op = st["op"]
+        # a stage file whose recorded definition checksum changed was (re)written by a commit — also by one that failed later on
+        for sp_ in names:
+            doc_ = st["snap"]["stages"].get(sp_)
+            cs_ = ((doc_[1] if doc_ else None) or {}).get("checksum") or ""
+            if cs_ and cs_ != last_sum.get(sp_):
+                committed_cmd[sp_] = command_of(st["snap"], sp_)
+            last_sum[sp_] = cs_
         if op[0] == "commit" and st["rc"] == 0:
             tg = [names.index(t) for t in op[2]] if op[2] else list(range(len(names)))
             for i_ in upstream(case["edges"], tg):
